@@ -61,7 +61,6 @@ class _Shadow:
         s.ids = {}          # id symbol -> event
         s.ngen = 0
         s.ntx = 0
-        s.txmap, s.txrev = {}, {}
         s.wm = {}           # pid -> confirmed count (lags behind len(parts[pid]) only after an unquiesced append)
     def khash(s, pk):
         return s.keys[int(pk[1:])] if pk[0] == "k" else s.dflt[int(pk[1:])]
@@ -123,12 +122,11 @@ def _events(o):
     return [dict(id=m[0], pk=m[1], pid=int(m[2]), tx=m[3], seq=int(m[4]), ver=int(m[5]), st=m[6], body=m[7]) for m in EV.findall(o)]
 
 def _same(sh, got, want):
-    """observed event vs reference event; transaction symbols must map one-to-one"""
+    """observed event vs reference event (t<n> = the transaction of the n-th accepted append)"""
     for k in ("id", "pk", "pid", "seq", "ver", "st"):
         if got[k] != want[k]: return f"{k}={got[k]} (reference: {want[k]})"
     if got["body"] != "ok": return f"body={got['body']}"
-    a, b = sh.txmap.setdefault(got["tx"], want["tx"]), sh.txrev.setdefault(want["tx"], got["tx"])
-    if a != want["tx"] or b != got["tx"]: return f"transaction id {got['tx']} does not match the transaction of the event"
+    if got["tx"] != f"t{want['tx']}": return f"transaction id {got['tx']} is not that of the event's transaction (t{want['tx']})"
     return None
 
 def _rng(s, e):
@@ -158,7 +156,7 @@ def _walk(c, o):
     obs = o.split(" | ")
     if len(obs) != len(cmds): return ("reply", f"{len(cmds)} requests but {len(obs)} replies recorded: {o[:160]}")
     sh = _Shadow(P, B, strict, keys, dflt)
-    pending = None      # pid of an append whose confirmation was not awaited before this command
+    pending = None      # (pid, events written) of an append whose confirmation was not awaited before this command
     for t, r in zip(cmds, obs):
         what = " ".join(t)[:150]
         if r in ("LOST", "NOREPLY", "NOCONNECTION") or r.startswith("PROTO") or "+DEAD" in r or "+PING=" in r:
@@ -172,7 +170,7 @@ def _walk(c, o):
         # admissible watermarks of the partition whose confirmation is still in flight
         def ws(pid):
             full = sh.plen(pid)
-            return list(range(sh.wm.get(pid, 0), full + 1)) if pending == pid else [full]
+            return list(range(sh.wm.get(pid, 0), full + 1)) if pending is not None and pending[0] == pid else [full]
         try:
             if kind == "X":
                 if not err: return ("invalid_accepted", f"`{what}` is outside the grammar but was answered with {r[:100]}")
@@ -290,11 +288,11 @@ def _walk(c, o):
         except (_Bad, ValueError, IndexError, KeyError):
             return None     # not a well-formed case line: nothing to say
         # confirmations: the harness awaits the previous unquiesced append after this command, and this one unless marked ~
-        if pending is not None: sh.wm[pending] = sh.plen(pending)
+        if pending is not None: sh.wm[pending[0]] = max(sh.wm.get(pending[0], 0), pending[1])
         pending = None
         if kind in ("A", "M") and not err:
             pid = planned[0]["pid"]
-            if t[0].endswith("~"): pending = pid
+            if t[0].endswith("~"): pending = (pid, sh.plen(pid))
             else: sh.wm[pid] = sh.plen(pid)
     return None
 
